@@ -108,7 +108,7 @@ macro_rules! vreach {
     }};
     ($c:expr, $m:literal) => {{
         #[cfg(kani)]
-        kani::cover!($c, concat!("VREACH ", $m));
+        kani::cover!($c, $m);
     }};
 }
 
